@@ -17,7 +17,7 @@ RULE = ("point clouds (1-D and 2-D arrays, optionally with an ignored third coor
         "copies, transposed views of transposed copies, strided windows of larger C / Fortran arrays, slices of transposed views, easting "
         "and northing with different layouts, non-square shapes - and integer-valued lattice clouds also as int64 / int32 arrays; easting, northing and the extra coordinate also with DIFFERENT dtypes (int32/int64/float32/float64 in all orders) and values needing the wider type (fractions next to integers, 7.5e6 + fractions next to float32), regions also smaller than the data extent with both adjust modes; the model "
         "always receives the logical C-order ravel. Every call is made twice on the same argument objects (identical result, arguments "
-        "unchanged); a sequence stream calls, modifies the same array objects in place (shift, scale, centre, overwrite) and calls again "
+        "unchanged); grids with 17 .. 600 blocks with points strictly inside a block at 1e-6 .. 1e-2 of its size from an edge (compared exactly) and points up to three region widths outside; 2-D inputs with more than 10000 points (model evaluated on a fixed subsample of positions incl. runs around every multiple of 10000, all labels range-checked); region passed as tuple / list / float64 / integer ndarray in rotation; a sequence stream calls, modifies the same array objects in place (shift, scale, centre, overwrite) and calls again "
         "(must match the model on the new values and a call on fresh copies). Non-trivial = the call returns labels for a non-empty cloud; distinct = distinct argument tuples. Points within 2^-30 x scale "
         "of a shared edge are excluded point-wise from the label equality (the statement is still evaluated on them); cases whose "
         "extent/spacing quotient is within 2^-30 of a rounding tie without being one are skipped.")
@@ -35,24 +35,47 @@ def dl(xs):
     return clist([cD(float(x)) for x in xs])
 
 
-def block_case(vd, spec, spacing, adj, region, shape, kind, pre=None):
+def subsample_indices(n):
+    """positions compared through the model for very large inputs: first, last, every 97th, and a run of
+    positions on both sides of every multiple of 10000"""
+    idx = set(range(0, n, 97)) | {0, n - 1}
+    for k in range(10000, n, 10000):
+        idx |= set(range(max(0, k - 5), min(n, k + 60)))
+    return sorted(idx)
+
+
+def block_case(vd, spec, spacing, adj, region, shape, kind, pre=None, rkind="tuple", recipe=None):
     """spec: [(values, layout, dtype), ...] (harness/layouts.py); the model gets the logical C-order ravel.
-    pre = (first, ops): an earlier call on the same array objects followed by in-place modifications"""
-    coords = layouts.build(spec)
+    pre = (first, ops): an earlier call on the same array objects followed by in-place modifications.
+    rkind: the kind of object the region is passed as (the same object for both calls).
+    recipe: python source building the coordinate tuple `c` of a very large input (then spec is ignored, the model
+    is evaluated on a fixed subsample of positions and all labels are range-checked here)"""
+    if recipe:
+        env = {}
+        exec(recipe, env)
+        coords = env["c"]
+    else:
+        coords = layouts.build(spec)
     if pre:
         layouts.first_call(vd, coords, pre[0])
         layouts.apply_ops(coords, pre[1])
     snap = layouts.snapshot(coords)
     east, north = coords[0], coords[1]
+    sub = subsample_indices(east.size) if recipe else None
     kw = {}
+    kwsrc = []
     if spacing is not None:
         kw["spacing"] = spacing
+        kwsrc.append("spacing=%r" % (spacing,))
     if shape is not None:
         kw["shape"] = shape
+        kwsrc.append("shape=%r" % (shape,))
     if region is not None:
-        kw["region"] = region
+        kw["region"], rsrc = layouts.arg_obj(rkind, region)
+        kwsrc.append("region=r")
     if adj != 0:
         kw["adjust"] = ADJ[adj]
+        kwsrc.append("adjust=%r" % ADJ[adj])
     shape_ok = True
     try:
         bc, labels = vd.block_split(coords, **kw)
@@ -60,7 +83,7 @@ def block_case(vd, spec, spacing, adj, region, shape, kind, pre=None):
         shape_ok = (len(bc) == 2 and bc[0].ndim == 1 and bc[1].ndim == 1 and labels.ndim == 1
                     and labels.shape[0] == east.size and np.issubdtype(labels.dtype, np.integer)
                     and bc[0].dtype == np.float64 and bc[1].dtype == np.float64)
-        # same argument objects again: identical result, arguments untouched
+        # same argument objects again: identical result, coordinate arrays untouched
         bc2, labels2 = vd.block_split(coords, **kw)
         stable = (layouts.unchanged(coords, snap) and np.array_equal(np.asarray(labels2), labels)
                   and all(np.array_equal(a, b) for a, b in zip(bc, bc2)))
@@ -68,9 +91,17 @@ def block_case(vd, spec, spacing, adj, region, shape, kind, pre=None):
             bc3, labels3 = vd.block_split(layouts.fresh(coords), **kw)
             stable = stable and np.array_equal(np.asarray(labels3), labels) and all(np.array_equal(a, b) for a, b in zip(bc, bc3))
         if shape_ok:
+            lab = labels if sub is None else labels[sub]
             obs = {"centres_east": [float(x) for x in bc[0]], "centres_north": [float(x) for x in bc[1]],
-                   "labels": [int(x) for x in labels], "second_call_identical_and_arguments_unchanged": bool(stable)}
-            cobs = "(Some (%s, %s, %s))" % (dl(bc[0]), dl(bc[1]), clist([cZ(x) for x in labels]))
+                   "labels": [int(x) for x in lab], "second_call_identical_and_arguments_unchanged": bool(stable)}
+            if region is not None:
+                obs["region_object_unchanged"] = layouts.same_values(kw["region"], region)
+            if sub is not None:
+                obs["labels_are_of_positions"] = "first, last, every 97th and around every multiple of 10000 (%d of %d)" % (len(sub), east.size)
+                obs["all_labels_in_range"] = bool(labels.min() >= 0 and labels.max() < bc[0].size)
+                obs["label_histogram"] = np.bincount(labels, minlength=bc[0].size).tolist() if obs["all_labels_in_range"] else None
+                shape_ok = shape_ok and obs["all_labels_in_range"]
+            cobs = "(Some (%s, %s, %s))" % (dl(bc[0]), dl(bc[1]), clist([cZ(x) for x in lab]))
         else:
             obs = {"bad_output_shapes": [list(np.shape(b)) for b in bc] + [list(labels.shape), str(labels.dtype)]}
             cobs = "(Some ([], [], []))"
@@ -90,10 +121,16 @@ def block_case(vd, spec, spacing, adj, region, shape, kind, pre=None):
         csp = "(Some %s)" % dl(spacing)
     cshape = "None" if shape is None else "(Some (%s, %s))" % (cZ(shape[0]), cZ(shape[1]))
     creg = "None" if region is None else "(Some %s)" % dl(region)
-    term = "c08_case %s %s %s %s %s %s %s %s" % (dl(layouts.logical(east)), dl(layouts.logical(north)), csp, cZ(adj), creg, cshape, cobs, cbool(shape_ok))
-    repro = layouts.repro_args(spec) + (layouts.repro_sequence(*pre) if pre else "") + "import verde; print(verde.block_split(c, **%r))" % (kw,)
-    inp = {"fn": "block_split", "coordinates": layouts.describe(spec), "spacing": spacing, "shape": shape,
-           "region": None if region is None else [float(r) for r in region], "adjust": ADJ[adj]}
+    le, ln = layouts.logical(east), layouts.logical(north)
+    if sub is not None:
+        le, ln = [le[i] for i in sub], [ln[i] for i in sub]
+    term = "c08_case %s %s %s %s %s %s %s %s" % (dl(le), dl(ln), csp, cZ(adj), creg, cshape, cobs, cbool(shape_ok))
+    repro = ((recipe if recipe else layouts.repro_args(spec)) + (layouts.repro_sequence(*pre) if pre else "")
+             + ("import numpy as np; r = %s\n" % rsrc if region is not None else "")
+             + "import verde; print(verde.block_split(c, %s)); print(verde.block_split(c, %s))" % (", ".join(kwsrc), ", ".join(kwsrc)))
+    inp = {"fn": "block_split", "coordinates": recipe if recipe else layouts.describe(spec), "spacing": spacing, "shape": shape,
+           "region": None if region is None else [float(r) for r in region], "region_passed_as": rkind if region is not None else None,
+           "adjust": ADJ[adj]}
     if pre:
         inp["after"] = {"earlier_call_on_same_objects": [pre[0][0], repr(pre[0][1])], "then_in_place": [list(o) for o in pre[1]]}
     return Case(inp, obs, term, repro, kind, nontrivial=(obs != "ValueError" and east.size > 0))
@@ -219,7 +256,7 @@ def generate(tier, seed):
             arrs = [xs, ys]
             if i % 5 == 0:
                 arrs.append([rnd.uniform(-1e3, 1e3) for _ in xs])   # ignored extra coordinate
-            cases.append(block_case(vd, layouts.arrange(rnd, arrs), spacing, adj, region, shape, stream))
+            cases.append(block_case(vd, layouts.arrange(rnd, arrs), spacing, adj, region, shape, stream, rkind=layouts.ARG_KINDS[i % 4]))
     # region inferred from the cloud
     for i in range(nper):
         lat = rnd.random() < 0.5
@@ -267,6 +304,56 @@ def generate(tier, seed):
             sp, sh, adj = None, rnd.choice([(2, 3), (3, 2), (3, 4), (1, 4), (5, 1)]), 0
         keep = 3 if i % 2 == 0 else 2
         cases.append(block_case(vd, layouts.arrange(rnd, arrs[:keep], dt=dts[:keep]), sp, adj, reg, sh, "mixed-dtype"))
+    # many blocks (more than one k-d tree leaf: 17 .. 600), points strictly inside a block at relative distances
+    # 1e-6 .. 1e-2 of the block size from an edge (far beyond the 2^-30 near-tie allowance: these are not ties), and
+    # points outside the region by up to several region widths (still: the nearest centre = the clamped border block)
+    nbig = 24 if tier == "quick" else 160
+    for i in range(nbig):
+        w, s0 = float(rnd.randint(-8, 8)), float(rnd.randint(-8, 8))
+        width, height = rnd.choice([(10.0, 10.0), (20.0, 30.0), (12.0, 6.0), (8.0, 16.0), (15.0, 5.0)])
+        reg = (w, w + width, s0, s0 + height)
+        if i == 0:
+            reg, sp, sh, adj = (0.0, 20.0, 0.0, 30.0), 1.0, None, 0          # 30 x 20 blocks
+        elif i == 1:
+            reg, sp, sh, adj = (0.0, 10.0, 0.0, 10.0), 1.0, None, 0
+        elif rnd.random() < 0.5:
+            sp, sh, adj = rnd.choice([1.0, 1.0, 2.0, (1.0, 2.0), (2.5, 1.0), 1.5]), None, rnd.choice([0, 1])
+        else:
+            sp, sh, adj = None, rnd.choice([(3, 6), (6, 3), (5, 5), (10, 4), (4, 12), (1, 20), (18, 1)]), 0
+        gw, dx, nc, gs, dy, nr = geometry(vd, reg, sp, sh, adj)
+        width, height = reg[1] - reg[0], reg[3] - reg[2]
+        xs, ys = [], []
+        if i == 1:
+            xs, ys = [5.001, -30.0], [0.5, 5.25]
+        for _ in range(10):     # a whisker inside a block, next to one (or two) of its edges, on either side
+            c, r = rnd.randrange(nc), rnd.randrange(nr)
+            rel = 10.0 ** -(rnd.uniform(2.7, 6) if rnd.random() < 0.75 else rnd.uniform(2, 2.7))
+            fx, fy = rnd.choice([rel, 1 - rel]), rnd.choice([rel, 1 - rel])
+            which = rnd.randrange(3)
+            if which == 0:
+                fy = rnd.uniform(0.3, 0.7)
+            elif which == 1:
+                fx = rnd.uniform(0.3, 0.7)
+            xs.append(gw + (c + fx) * dx)
+            ys.append(gs + (r + fy) * dy)
+        for _ in range(4):      # far outside, all directions
+            sx, sy = rnd.choice([(-1, 0), (1, 0), (0, -1), (0, 1), (-1, -1), (1, 1), (-1, 1), (1, -1)])
+            far = rnd.choice([0.3, 1.0, 3.0])
+            xs.append(reg[0] - far * width if sx < 0 else (reg[1] + far * width if sx > 0 else rnd.uniform(reg[0], reg[1])))
+            ys.append(reg[2] - far * height if sy < 0 else (reg[3] + far * height if sy > 0 else rnd.uniform(reg[2], reg[3])))
+        for _ in range(2):
+            xs.append(rnd.uniform(reg[0], reg[1]))
+            ys.append(rnd.uniform(reg[2], reg[3]))
+        cases.append(block_case(vd, layouts.arrange(rnd, [xs, ys]), sp, adj, reg, sh, "many-blocks", rkind=layouts.ARG_KINDS[i % 4]))
+    # very large 2-D inputs (more than 10000 points in total): the model is evaluated on a fixed subsample of
+    # positions (first, last, every 97th, around every multiple of 10000); every label is range-checked
+    bigs = [(101, 101, "C"), (160, 70, "F")] if tier == "quick" else [(101, 101, "C"), (160, 70, "F"), (70, 160, "C"), (3, 7001, "TT"), (10001, 2, "C"), (203, 150, "Tslice")]
+    for nrow, ncol, lay in bigs:
+        recipe = (layouts.MK_SRC + "import numpy as np\n"
+                  "e, n = np.meshgrid(np.linspace(0.013, 11.979, %d), np.linspace(-2.987, 5.021, %d))\n"
+                  "c = (mk(e, %r), mk(n + 0.001 * np.sin(e), %r))\n" % (ncol, nrow, lay, lay))
+        cases.append(block_case(vd, None, (2.0, 3.0), 0, (0.0, 12.0, -3.0, 5.0), None, "large-2d", recipe=recipe))
+        cases.append(block_case(vd, None, None, 0, (0.0, 12.0, -3.0, 5.0), (5, 3), "large-2d", recipe=recipe, rkind="f64"))
     # sequences: a call, the SAME coordinate array objects modified in place, the call under test (must match the
     # model on the new values and a call on fresh copies)
     for i in range(nper // 2):
@@ -322,7 +409,8 @@ def search(dis, tier, seed):
 
 def _guard(fn):
     def wrapped(vd, spec, *a, **k):
-        inp = {"fn": fn.__name__, "coordinates": layouts.describe(spec), "arguments": repr(a[:-1]), "after": repr(k.get("pre"))}
+        inp = {"fn": fn.__name__, "coordinates": k.get("recipe") or layouts.describe(spec), "arguments": repr(a[:-1]), "after": repr(k.get("pre")),
+               "region_passed_as": k.get("rkind")}
         return core.guarded(lambda: fn(vd, spec, *a, **k), inp, a[-1])
     return wrapped
 
